@@ -1261,6 +1261,7 @@ class JobTerminationMonitor(Monitor):
         run.on_tick.append(self.on_tick)
         run.world.listeners.append(self.on_event)
         self.tracker.listeners_forced.append(self.on_forced)
+        self.created_at = {}   # namespec -> instant of its last creation at run time (numprocs increased, group added)
         run.world.on_hook('instance_state', self.on_invalidation)
         self.flag_since = {}     # (nick, inc, kind) -> vt since the flag is continuously reported
         self.reported = set()
@@ -1352,6 +1353,12 @@ class JobTerminationMonitor(Monitor):
                 except Fault:
                     continue
                 self.count('forced_state_views_checked')
+                if info['statecode'] != rec['state'] and \
+                        (rec['check_at'] - 2 * TICK) - self.created_at.get(rec['namespec'], -1e9) < TICK:
+                    # the process had just been created at run time on some instance: its PROCESS_ADDED publication may
+                    # reach this observer after the forced state, which it then ignores (process unknown to it yet)
+                    self.count('forced_state_on_a_process_just_created_not_judged')
+                    continue
                 if info['statecode'] != rec['state']:
                     self.violate(f"C10/forced-state-not-reported:{rec['state']}", f"{rec['sender']} gave up "
                                  f"{rec['namespec']} at vt={rec['vt']} ({rec['reason']}) but {inst.nick} reports it "
@@ -1495,6 +1502,8 @@ class JobTerminationMonitor(Monitor):
             # a process removed from / created on an instance at run time (numprocs, group): its entries are rewritten,
             # a pending forced state of that process (or of its whole group) is overtaken like by an event
             payload = (ev.get('args') or [{}])[0] or {}
+            if ev['name'] == 'send_process_added_event':
+                self.created_at[f"{payload.get('group')}:{payload.get('name')}"] = ev['t']
             for rec in self.pending_forced:
                 group, _, name = rec['namespec'].partition(':')
                 if payload.get('group') == group and payload.get('name') in (name, '*'):
